@@ -41,6 +41,20 @@ def load():
         raise RuntimeError("DISCOPY_VERIF hook is not enabled")
     _loaded["discopy"] = discopy
     install_monitor()
+    # import everything the engines will touch NOW, in the pristine parent: children are
+    # forked per run and would otherwise pay for these imports again and again
+    import importlib
+    for name in ("numpy", "sympy", "pytket", "pytket.passes", "pytket.backends.backendresult",
+                 "pytket.utils.outcomearray", "pytket.circuit", "discopy.quantum.tk", "discopy.quantum.zx",
+                 "discopy.quantum.gates", "discopy.quantum.circuit", "discopy.quantum.cqmap",
+                 "discopy.grammar.cfg", "discopy.grammar.pregroup", "discopy.grammar.ccg",
+                 "discopy.biclosed", "discopy.cartesian", "discopy.tensor", "discopy.rewriting",
+                 "sim.model", "sim.build", "sim.tksim", "sim.engines.rewrite", "sim.engines.session",
+                 "sim.engines.backend", "sim.engines.grammar"):
+        try:
+            importlib.import_module(name)
+        except Exception:       # an engine that needs it will fail loudly later
+            pass
     return discopy
 
 
